@@ -658,10 +658,14 @@ class Polygon(Shape2D):
         edges_cross_qs = np.cross(edges[:, np.newaxis, :], q_nonzero_broadcast)
         # Due to oddities of numpy broadcasting, many singleton dimensions can persist
         # and must be squeezed out.
+        # np.inner of (E, 1, 3) and (1, Q, 3) has shape (E, 1, 1, Q): drop exactly the two
+        # singleton axes so that a single nonzero q (Q == 1) keeps its batch axis.
         midpoints_dot_qs = np.inner(
             midpoints[:, np.newaxis, :], q_nonzero_broadcast
-        ).squeeze()
-        edges_dot_qs = np.inner(edges[:, np.newaxis, :], q_nonzero_broadcast).squeeze()
+        ).squeeze(axis=(1, 2))
+        edges_dot_qs = np.inner(
+            edges[:, np.newaxis, :], q_nonzero_broadcast
+        ).squeeze(axis=(1, 2))
         f_ns = (
             np.dot(edges_cross_qs, self.normal)
             # Note that np.sinc(x) gives sin(pi*x)/(pi*x)
